@@ -1454,7 +1454,8 @@ def rule_ioretmisc(text):
          "a mutable prefix `&mut S[..n]` filled and then written: the fill acts on the first n bytes of S, the write reads them (Verus has no mutable sub-slices)"),
         (r"fill_retirement_marker\(" + ws + r"&mut" + ws + r"(\w+)\[(\w+)\.\.(\w+)" + ws + r"\+" + ws + r"(\w+)\]" + ws + r"," + ws + r"([^;]*?)," + ws + r"([^;,]*?)," + ws + r"\)" + ws + r";",
          r"fill_retirement_marker_at(\1, \2, \3 + \4, \5, \6);", "R-subslice", "a mutable sub-slice handed to the marker writer: the writer acts on bytes a..b of the buffer"),
-        (r"for" + ws + r"offset" + ws + r"in" + ws + r"0\.\.blocks" + ws + r"\{", "let mut offset: usize = 0; while offset < blocks { ", "R-for", "definition of a counted loop"),
+        (r"for" + ws + r"offset" + ws + r"in" + ws + r"0\.\.blocks" + ws + r"\{", "let mut offset_next_: usize = 0; while offset_next_ < blocks { let offset = offset_next_; offset_next_ = offset_next_ + 1;", "R-for", "definition of a counted loop"),
+        (r"debug_assert(_eq)?!\([^;]*\);", "", "R-dbg", "dropped: a debug-only assertion (absent from release builds); its condition is stated as a precondition in the contract"),
         (r"let" + ws + r"mut" + ws + r"ordered" + ws + r"=" + ws + r"extents\.to_vec\(\)" + ws + r";" + ws + r"ordered\.sort_unstable_by_key\(" + ws + r"\|extent\|" + ws + r"extent\.0" + ws + r"\)" + ws + r";",
          "let ordered = sorted_by_start(extents);", "R-sort", "shim: copy + sort by start = a permutation, ascending by start"),
         (r"for" + ws + r"\((\w+)," + ws + r"(\w+)\)" + ws + r"in" + ws + r"ordered" + ws + r"\{", r"let mut oi_: usize = 0; while oi_ < ordered.len() { let (\1, \2) = ordered[oi_]; oi_ = oi_ + 1;", "R-for",
